@@ -246,6 +246,43 @@ def run(case, res):
     wf = list(case['writer_faults'])
     wfi = 0
     for name, fn in calls:
+        if name in ('print_vcd', 'print_trace') and wf and wf[0] % 2 == 0:
+            # the very first dump of this trace object is the one that fails; the dump after
+            # it must equal the dump of a twin trace that never saw a failure
+            sim_t = pyrtl.Simulation(tracer=pyrtl.SimulationTrace('all', block=blk), block=blk)
+            for cyc in tape[:n_ok]:
+                sim_t.step(dict(cyc))
+            # where the failure lands: anywhere in the dump, the header included (the number
+            # of writes of a whole dump is measured on the twin)
+            cnt = world.FaultyWriter(None)
+            try:
+                if name == 'print_vcd':
+                    sim_t.tracer.print_vcd(cnt)
+                else:
+                    sim_t.tracer.print_trace(cnt)
+            except (pyrtl.PyrtlError, pyrtl.PyrtlInternalError):
+                pass
+            fw0 = world.FaultyWriter(wf[1 % len(wf)] * 7919 % max(1, cnt.nwrites))
+            try:
+                fn(fw0)
+            except OSError:
+                res.faults.hit('writer_fault_on_first_dump')
+            except (pyrtl.PyrtlError, pyrtl.PyrtlInternalError):
+                pass
+            t_buf, m_buf = io.StringIO(), io.StringIO()
+            try:
+                if name == 'print_vcd':
+                    sim_t.tracer.print_vcd(t_buf)
+                else:
+                    sim_t.tracer.print_trace(t_buf)
+                fn(m_buf)
+            except (pyrtl.PyrtlError, pyrtl.PyrtlInternalError):
+                res.probes.hit('call_refused:' + name)
+            else:
+                if t_buf.getvalue() != m_buf.getvalue():
+                    return Violation('writer_fault', 'text_differs_after_failed_first_dump',
+                                     {'call': name, 'diff': first_diff(t_buf.getvalue(), m_buf.getvalue())},
+                                     ['call:' + name])
         buf = io.StringIO()
         try:
             with transforms.quiet():
